@@ -106,6 +106,11 @@ type Scenario struct {
 
 	Validate string `json:"validate"` // "noop" (library's no-op validator) | "accept" | "reject"
 
+	// Warmup: before the call under test the same sender serves one fault-free call (the
+	// sender object is reused across calls in the library); its response must never be what
+	// the call under test returns.
+	Warmup bool `json:"warmup,omitempty"`
+
 	HintRule       string `json:"hint_rule"`       // "next": hint the voter after the target; "pingpong": voter 0 <-> voter 1
 	RPCFlavor      string `json:"rpc_flavor"`      // "plain" | "unavailable" | "grpc-canceled"
 	DeadlineFlavor string `json:"deadline_flavor"` // "ctx" | "grpc" | "busy-reason" | "message"
@@ -172,13 +177,13 @@ func enumConfigs() []Scenario {
 			sc.DownOverride = true
 			sc.Validate = "accept"
 		}),
-		/* 4 */ mk(func(sc *Scenario) { sc.ReadMode = ModeFollower; sc.LatencyUs = []int{0} }),
+		/* 4 */ mk(func(sc *Scenario) { sc.ReadMode = ModeFollower; sc.LatencyUs = []int{0}; sc.Warmup = true }),
 		/* 5 */ mk(func(sc *Scenario) { sc.ReadMode = ModeMixed; sc.LabelStore = 1; sc.LeaderIdx = 2 }),
 		/* 6 */ mk(func(sc *Scenario) { sc.ReadMode = ModeLearner; sc.Learner = true }),
 		/* 7 */ mk(func(sc *Scenario) { sc.ReadMode = ModePreferLeader; sc.Slow = []int{0}; sc.RequestSource = "test" }),
 		/* 8 */ mk(func(sc *Scenario) { sc.ReadMode = ModeStale; sc.LabelStore = 1; sc.DeadlineFlavor = "grpc" }),
 		/* 9 */ mk(func(sc *Scenario) { sc.ReadMode = ModeStale; sc.TimeoutMs = 1000; sc.BudgetMs = 40000 }),
-		/* 10 */ mk(func(sc *Scenario) { sc.API = "async"; sc.Validate = "accept" }),
+		/* 10 */ mk(func(sc *Scenario) { sc.API = "async"; sc.Validate = "accept"; sc.Warmup = true }),
 		/* 11 */ mk(func(sc *Scenario) { sc.ReadMode = ModeFollower; sc.Cmd = CmdPrewrite }),
 		/* 12 */ mk(func(sc *Scenario) { sc.ReadMode = ModeMixed; sc.Cmd = CmdCommit; sc.API = "async" }),
 		/* 13 */ mk(func(sc *Scenario) { sc.ReadMode = ModeStale; sc.Cmd = CmdPrewrite }),
@@ -196,6 +201,8 @@ func enumConfigs() []Scenario {
 			sc.DeadlineFlavor = "message"
 			sc.TimeoutMs = 1000
 		}),
+		/* 16 */ mk(func(sc *Scenario) { sc.Validate = "reject"; sc.ReadMode = ModeMixed }),
+		/* 17 */ mk(func(sc *Scenario) { sc.Validate = "reject"; sc.API = "async"; sc.ReadMode = ModeStale; sc.Warmup = true }),
 	}
 }
 
@@ -339,6 +346,7 @@ func generateRandom(cfg simkit.RunConfig) *Scenario {
 		}
 	}
 	sc.Validate = pick(r, "noop", "noop", "accept", "accept", "reject")
+	sc.Warmup = r.Intn(4) == 0
 	sc.HintRule = pick(r, "next", "pingpong")
 	sc.RPCFlavor = pick(r, "plain", "plain", "unavailable", "grpc-canceled")
 	sc.DeadlineFlavor = pick(r, "ctx", "ctx", "grpc", "busy-reason", "message")
@@ -398,6 +406,7 @@ func shrink(sc *Scenario) []any {
 	add(func(c *Scenario) bool { ok := c.RequestSource != ""; c.RequestSource = ""; return ok })
 	add(func(c *Scenario) bool { ok := c.Validate != "noop" && c.Validate != "reject"; c.Validate = "noop"; return ok })
 	add(func(c *Scenario) bool { ok := c.LeaderIdx != 0; c.LeaderIdx = 0; return ok })
+	add(func(c *Scenario) bool { ok := c.Warmup; c.Warmup = false; return ok })
 	add(func(c *Scenario) bool { ok := c.API != "sync"; c.API = "sync"; return ok })
 	add(func(c *Scenario) bool {
 		ok := len(c.LatencyUs) != 1 || c.LatencyUs[0] != 0
@@ -410,7 +419,7 @@ func shrink(sc *Scenario) []any {
 }
 
 func (sc *Scenario) String() string {
-	return fmt.Sprintf("api=%s mode=%s cmd=%s script=%v cycle=%d fwd=%v learner=%v leader=%d live=%v down=%v slow=%v label=%d stores=%v budget=%dms timeout=%dms busyTh=%d deadline=%dms cancel@%dus validate=%s",
+	return fmt.Sprintf("api=%s mode=%s cmd=%s script=%v cycle=%d fwd=%v learner=%v leader=%d live=%v down=%v slow=%v label=%d stores=%v budget=%dms timeout=%dms busyTh=%d deadline=%dms cancel@%dus validate=%s warmup=%v",
 		sc.API, sc.ReadMode, sc.Cmd, sc.Script, sc.CycleLen, sc.Forwarding, sc.Learner, sc.LeaderIdx, sc.Liveness, sc.DownOverride, sc.Slow,
-		sc.LabelStore, sc.MatchStores, sc.BudgetMs, sc.TimeoutMs, sc.BusyThresholdMs, sc.CallerDeadlineMs, sc.CallerCancelAtUs, sc.Validate)
+		sc.LabelStore, sc.MatchStores, sc.BudgetMs, sc.TimeoutMs, sc.BusyThresholdMs, sc.CallerDeadlineMs, sc.CallerCancelAtUs, sc.Validate, sc.Warmup)
 }
